@@ -313,6 +313,8 @@ def split_kids(m):
     """(interface nodes by parameter index or None, body children in order)"""
     labels = list(m.inputs.labels)
     kids = list(m.children.values())
+    order = m._user_data.setdefault("c09_creation_order", [n.label for n in kids])
+    kids.sort(key=lambda n: order.index(n.label) if n.label in order else len(order))
     uis = [None] * len(labels)
     body = []
     for n in kids:
@@ -423,9 +425,24 @@ def link_facts(m, d):
     out = []
     for mac, dd, path in macros_of(m, d):
         uis, body = split_kids(mac)
+        kept = kept_of(dd) if len(dd["ps"]) == len(list(mac.inputs)) else None
         for i, c in enumerate(mac.inputs):
             r = c.value_receiver
-            out.append(["in", path, i, _val(c.value), "missing" if r is None else _val(r.value)])
+            fact = ["in", path, i, _val(c.value), "missing" if r is None else _val(r.value)]
+            if kept is not None and r is not None:
+                try:                             # the channel the definition says this input stands for
+                    if kept[i]:
+                        want = uis[i].inputs["user_input"]
+                    elif uses_of(dd, i):
+                        j, k = uses_of(dd, i)[0]
+                        want = list(body[j].inputs)[k]
+                    else:
+                        want = r
+                    if want is not r:
+                        fact.append("misrouted")
+                except Exception:
+                    fact.append("misrouted")
+            out.append(fact)
         outs = list(mac.outputs)
         for o, (_, a) in enumerate(dd["rets"]):
             try:
@@ -659,7 +676,8 @@ def run_impl(case):
         elif op[0] != "run":
             try:                                 # the channel the operation names must exist
                 _n = resolve(m, op[1])
-                _ = (list(_n.inputs.labels) if op[0] in ("in", "bad") else list(_n.outputs))[op[2]]
+                if op[0] != "replace":
+                    _ = (list(_n.inputs.labels) if op[0] in ("in", "bad") else list(_n.outputs))[op[2]]
             except (LookupError, IndexError, TypeError):
                 steps.append(["no-such-channel"])
                 extras["steps"].append({"missing": True})
@@ -690,6 +708,24 @@ def run_impl(case):
                     ex["inl"] = inlined_workflow(cls_of, d, [v[0] for v in ex["ins"]], t)
                 except Exception as e:          # noqa
                     ex["inl"] = ["EXC", type(e).__name__]
+        elif op[0] == "replace":
+            node = resolve(m, op[1])
+            parent, cls_ = node.parent, type(node)
+            try:
+                if op[2] == "replace_with":
+                    node.replace_with(cls_())
+                elif op[2] == "assign":
+                    setattr(parent, node.label, cls_)             # macro.child = Class
+                elif op[2] == "by_label":
+                    parent.replace_child(node.label, cls_())
+                else:
+                    parent.replace_child(node, cls_())
+            except Exception as e:              # noqa
+                steps.append(["EXC-replace", type(e).__name__])
+                ex["error"] = f"{type(e).__name__}: {str(e)[:150]}"
+                extras["steps"].append(ex)
+                break
+            steps.append(["replaced", snap_static(m), snap_dyn(m)])
         elif op[0] == "bad":
             node = resolve(m, op[1])
             before = snap_dyn(m)
@@ -767,6 +803,8 @@ def coq_op(op):
         return "ORun"
     if op[0] == "bad":
         return f"OSetBad {coq_path(op[1])} {cn(op[2])}"
+    if op[0] == "replace":
+        return f"(OReplace {coq_path(op[1])})"
     if op[0] == "runkw":
         return "(ORunKw " + cl(f"({cn(k)}, {cz(x)})" for k, x in op[1]) + ")"
     return f"{'OSetIn' if op[0] == 'in' else 'OSetOut'} {coq_path(op[1])} {cn(op[2])} {cz(op[3])}"
@@ -1083,6 +1121,17 @@ def gen_ops(rng, d):
             out.append(o)
             i += 1
     ops = out
+    # a function child (any depth) replaced by a fresh node of its class -- replace_child by instance or by
+    # label, child.replace_with, `macro.child = Class` -- then macro-level updates and a run
+    fn_paths = [path + [["body", j]] for path, dd in macro_paths(d) for j, e in enumerate(dd["body"]) if e[1] is None]
+    if fn_paths and rng.random() < 0.3:
+        rep = [["replace", rng.choice(fn_paths), rng.choice(["replace_child", "by_label", "replace_with", "assign"])]]
+        for i_ in range(np_):
+            if rng.random() < 0.7:
+                rep.append(["in", [], i_, rng.randrange(0, 40), rng.choice(["panel", "attr", "value"])])
+        rep.append(["run"])
+        at = rng.randrange(0, len(ops) + 1)
+        ops = ops[:at] + rep + ops[at:]
     # re-assigning the SAME object at macro level after a child-level edit of a channel it forwards to:
     # the whole chain must carry it again (small ints are one object in CPython)
     chains = [(i_, c) for i_ in range(np_) for c in down_chain(d, [], i_)]
@@ -1223,7 +1272,8 @@ def corpus(ctx):
 # =============================================================================================
 # the property, on the facts recorded from the implementation
 def is_macro_level(o):
-    return o[0] in ("run", "runkw") or o[1] == []
+    # (replacing a function child by a fresh node of its class leaves the definition what it is)
+    return o[0] in ("run", "runkw", "replace") or o[1] == []
 
 
 def _startswith(path, prefix):
@@ -1273,7 +1323,7 @@ def failures(case, obs):
                                                   f"the definition has its arguments", None))
                 continue
             if not dup_returns(dv_):
-                for kind, path, idx, mv, pv in f.get("links", []):
+                for kind, path, idx, mv, pv in [x[:5] for x in f.get("links", [])]:
                     if mv != pv:
                         bad.append((f"sync-{kind}", -1, f"declaration {i}: macro {kind}put {idx} at {path} holds {mv}, its child "
                                                         f"channel holds {pv}", ("variant", path, idx)))
@@ -1318,7 +1368,11 @@ def failures(case, obs):
                                          f"{want_b}", None))
     # ---- value links, after construction and after every operation ------------------------
     def check_links(links, t):
-        for kind, path, idx, mv, pv in links:
+        for fact in links:
+            kind, path, idx, mv, pv = fact[:5]
+            if len(fact) > 5:
+                bad.append(("misrouted-link", t, f"after step {t}: macro input {idx} at {path} is value-linked to another "
+                                                 f"channel than the one its definition feeds it to", (kind, path, idx)))
             if pv == "missing" or mv == "missing":
                 bad.append(("unlinked", t, f"macro {kind}put {idx} at {path} has no partner channel", (kind, path, idx)))
             elif mv != pv:
@@ -1331,6 +1385,10 @@ def failures(case, obs):
             break
         if "links" in st:
             check_links(st["links"], t)
+        if ops[t][0] == "replace":
+            if "error" in st:
+                bad.append(("replace-failed", t, f"step {t}: replacing a child by a node of its own class raised {st['error']}", None))
+            continue
         if ops[t][0] == "bad":
             must = rejects_at(d, ops[t][1], ops[t][2])
             if st.get("accepted") and must:
@@ -1410,6 +1468,8 @@ def explain(case, failure):
         if last_poke is None:
             return False
         for o in before[last_poke + 1:]:
+            if o[0] == "replace" and any(json.dumps(q) == json.dumps(o[1]) for q, _ in down_chain(d, path, idx)):
+                return False                   # the links of a replaced child are re-forged with the sender's value
             for p, k in sets(o):
                 if (p, k) == (path, idx) or (json.dumps(path), idx) in [(json.dumps(q), kk) for q, kk in down_chain(d, p, k)]:
                     return False
@@ -1528,6 +1588,8 @@ def distribution(results):
             if op[0] in ("run", "runkw"):
                 dist["ops"]["run"] += 1
                 dist["ops"]["run_kw"] = dist["ops"].get("run_kw", 0) + (op[0] == "runkw")
+            elif op[0] == "replace":
+                dist["ops"]["replace"] = dist["ops"].get("replace", 0) + 1
             elif op[0] == "bad":
                 dist["ops"]["bad"] += 1
                 dist["refused_from_below"] += (tuple(map(json.dumps, [op[1], op[2]])) in
